@@ -253,3 +253,28 @@ Proof.
   destruct (OutputP.layout_partial _ _ _ _ _ Ho) as (A & B & C & D & E).
   repeat split; auto. apply OutputP.bank_windows_b. exact W.
 Qed.
+
+(* ================================================================= D. non-vacuity *)
+(* #bankdef b { bits = 4, addr = 16, outp = 0 } / top: / .loc: / #d8 .loc / ..d = top.loc + 1 *)
+Definition ex_prog2 : list pnode :=
+  [ PBankdef [98%N] (mkFields (Some (ENum 4 None)) None (Some (ENum 16 None)) None None (Some (ENum 0 None)) false);
+    PLabel 0 [116%N; 111%N; 112%N];
+    PLabel 1 [108%N; 111%N; 99%N];
+    PData (Some 8%N) [EVar 1 [[108%N; 111%N; 99%N]]];
+    PConst 2 [100%N] (EBin Add (EVar 0 [[116%N; 111%N; 112%N]; [108%N; 111%N; 99%N]]) (ENum 1 None)) ].
+
+Example assemble2_nonvacuous :
+  exists r, assemble2 true [] ex_prog2 3 = Ok r /\
+    r_bits r = [false; false; false; true; false; false; false; false] /\ r_iters r = 2%nat /\
+    map snd (r_syms r) = [VInt (un 16); VInt (un 16); VInt (un 17)] /\
+    length (r_banks r) = 2%nat /\ Forall OutputP.no_empty_emit (r_nodes r).
+Proof.
+  eexists. split; [vm_compute; reflexivity|]. cbn [r_bits r_iters r_syms r_banks r_nodes map snd length].
+  repeat split. repeat constructor.
+Qed.
+
+(* budget 1 cannot confirm the labels; every budget >= 2 gives the result above *)
+Example assemble2_budget_nonvacuous :
+  assemble2 true [] ex_prog2 1 = Err /\
+  exists r, assemble2 true [] ex_prog2 2 = Ok r /\ r_iters r = 2%nat.
+Proof. split; [vm_compute; reflexivity|]. eexists. split; vm_compute; reflexivity. Qed.
